@@ -66,6 +66,7 @@ type proj struct {
 	Temp      bool     `json:"temp"`
 	Ext       []string `json:"ext"`
 	Chg       []string `json:"chg"`
+	Sec       string   `json:"sec"` // digest of the encrypted secrets blob ("" when not encrypted): memory and file must hold the same one
 }
 
 func addrsOf(w wallet.Wallet, opts ...wallet.Option) []string {
@@ -82,6 +83,10 @@ func addrsOf(w wallet.Wallet, opts ...wallet.Option) []string {
 
 func project(w wallet.Wallet) proj {
 	p := proj{ID: w.Filename(), Type: w.Type(), FP: w.Fingerprint(), Encrypted: w.IsEncrypted(), Label: w.Label(), Temp: w.IsTemp(), Chg: []string{}}
+	if w.IsEncrypted() {
+		h := cipher.SumSHA256([]byte(w.Secrets()))
+		p.Sec = h.Hex()[:16]
+	}
 	if w.Type() == wallet.WalletTypeBip44 {
 		p.Ext = addrsOf(w, wallet.OptionExternal())
 		p.Chg = addrsOf(w, wallet.OptionChange())
@@ -248,6 +253,7 @@ func runSequence(seq int) {
 	unloaded := map[string]bool{}
 	nextID := 0
 	again := -1
+	viewNext := ""
 	pws := []string{"pw-one", "pw-two"}
 
 	for step := 0; step < 14; step++ {
@@ -272,7 +278,11 @@ func runSequence(seq int) {
 		sort.Strings(ulBefore)
 		r["unloadedBefore"] = ulBefore
 		var opErr error
-		switch k := rng.Intn(20); {
+		k := rng.Intn(20)
+		if viewNext != "" && again < 0 {
+			k = 18
+		}
+		switch {
 		case k == 19 && len(ids) > 0 && rng.Intn(2) == 0:
 			// the node restarts: from here on the freshly started service is the one that is used
 			r["op"], r["id"] = "restart", ""
@@ -354,6 +364,9 @@ func runSequence(seq int) {
 			}
 			r["onChange"] = onChange
 			_, opErr = s.NewAddresses(id, p, opts...)
+			if opErr == nil && pwOf[id] != "" && rng.Intn(2) == 0 {
+				viewNext = id // addresses were derived while the wallet was locked: the next operation looks at its secrets
+			}
 		case k < 11:
 			id := pick()
 			n := 1 + rng.Intn(4)
@@ -422,6 +435,29 @@ func runSequence(seq int) {
 			if opErr == nil {
 				unloaded[id] = true
 			}
+		case k == 18 && (viewNext != "" || rng.Intn(2) == 0):
+			// a read-only look at the secrets (what signing a transaction does): nothing may change, in memory or on disk
+			id := pick()
+			if viewNext != "" {
+				id, viewNext = viewNext, ""
+			}
+			pw := pwOf[id]
+			if rng.Intn(5) == 0 {
+				pw = "wrong"
+				r["rightPw"] = false
+			}
+			r["op"], r["id"] = "viewsecrets", id
+			var p []byte
+			if pw != "" {
+				p = []byte(pw)
+			}
+			opErr = s.ViewSecrets(id, p, func(w wallet.Wallet) error {
+				_, err := w.GetEntries()
+				if w.Type() == wallet.WalletTypeBip44 {
+					_, err = w.GetEntries(wallet.OptionChange())
+				}
+				return err
+			})
 		default:
 			id := pick()
 			r["op"], r["id"] = "updatesecrets", id
